@@ -103,7 +103,6 @@ package base
 //@   ensures (0 <= idx && idx < aa.length ==> r == aa.data[idx]) && (!(0 <= idx && idx < aa.length) ==> r == nil)
 //@   modifies nothing
 
-//@ spec rec countTrue(a (Array Int Bool), k Int) Int = k <= 0 ? 0 : countTrue(a, k - 1) + (sel(a, k - 1) ? 1 : 0)
 //@ spec func arrayOK(la) = la != nil && la.array != nil && la.array.length >= 0 && la.array.length == len(la.array.data) && allocated(base(la.array.data)) && (forall i Int :: 0 <= i && i < la.array.length && la.array.data[i] != nil ==> la.array.data[i].BucketStart < 4611686018427387904)
 //@ spec func live(la, now, ww) = ww != nil && !(ww.BucketStart > now || now - ww.BucketStart > la.intervalInMs)
 
